@@ -33,6 +33,12 @@ enum Kind {
     /// one more write into the same shard before every coordinator round: a write must be
     /// durable two rounds after it was accepted, whatever arrives in its shard meanwhile
     Trickle,
+    /// a dozen coordinator rounds with nothing to do, then an overwrite: the round that
+    /// follows must still come promptly
+    OverwriteAfterIdle,
+    /// 1100 writes in one shard drained as one backlog (two journal-sized batches) while the
+    /// first batch's record write fails three times; then the device works again
+    BacklogAfterFailedBatch,
 }
 
 #[derive(Clone, Copy, Debug, PartialEq)]
@@ -78,7 +84,7 @@ struct CaseResult {
 
 fn run_case(workers: usize, shard: usize, kind: Kind, nb: Neighbours) -> CaseResult {
     let mut res = CaseResult { problems: Vec::new(), machinery: None, rounds: 0 };
-    let big = matches!(kind, Kind::Burst | Kind::TickOnFullChannel | Kind::BatchOf(_));
+    let big = matches!(kind, Kind::Burst | Kind::TickOnFullChannel | Kind::BatchOf(_) | Kind::BacklogAfterFailedBatch);
     let mut cfg = Cfg::persistent(if big { 1300 } else { 64 });
     cfg.workers = workers;
     cfg.ttl = kind == Kind::Sweep;
@@ -117,7 +123,7 @@ fn run_case(workers: usize, shard: usize, kind: Kind, nb: Neighbours) -> CaseRes
     let mut expect_absent: Vec<Vec<u8>> = Vec::new();
     // --- preparation (durable through flush(): allowed, it precedes the write under test)
     match kind {
-        Kind::Overwrite | Kind::Delete => {
+        Kind::Overwrite | Kind::Delete | Kind::OverwriteAfterIdle => {
             st.insert(&key, b"old value").unwrap();
             st.flush().unwrap();
         }
@@ -145,6 +151,33 @@ fn run_case(workers: usize, shard: usize, kind: Kind, nb: Neighbours) -> CaseRes
         Kind::Overwrite => {
             st.insert(&key, b"replacement").unwrap();
             expect_present.push((key.clone(), b"replacement".to_vec()));
+        }
+        Kind::OverwriteAfterIdle => {
+            for i in 0..12 {
+                if let Err(e) = sut.coordinator_round(5_000) {
+                    res.problems.push(format!("C19: {kind:?} on shard {shard} of {workers}: idle round {} of 12: {e}", i + 1));
+                    return res;
+                }
+            }
+            st.insert(&key, b"replacement").unwrap();
+            expect_present.push((key.clone(), b"replacement".to_vec()));
+            // the coordinator must pick the work up promptly: a granted round that does not even
+            // start within five seconds is not "the flush interval plus I/O time"
+            if let Err(e) = sut.coordinator_round(5_000) {
+                res.problems.push(format!(
+                    "C19: {kind:?} on shard {shard} of {workers}: after twelve idle rounds an overwrite was accepted, but {e} within 5 s (the periodic flusher stopped polling)"
+                ));
+                return res;
+            }
+        }
+        Kind::BacklogAfterFailedBatch => {
+            sut.sess.hold_workers.store(true, Ordering::SeqCst);
+            for k in &key_of[shard][..1100] {
+                st.insert(k, b"backlog").unwrap();
+                expect_present.push((k.clone(), b"backlog".to_vec()));
+            }
+            sut.sess.fault.lock().fail_data_writes = 3;
+            sut.sess.hold_workers.store(false, Ordering::SeqCst);
         }
         Kind::Delete => {
             st.delete(&key).unwrap();
@@ -267,7 +300,7 @@ fn run_case(workers: usize, shard: usize, kind: Kind, nb: Neighbours) -> CaseRes
         sut.sess.fault.lock().fail_data_writes = 3;
     }
     // --- coordinator rounds, one at a time
-    let max_rounds = if kind == Kind::InsertAfterFailedBatch { 3 } else { 2 };
+    let max_rounds = if matches!(kind, Kind::InsertAfterFailedBatch | Kind::BacklogAfterFailedBatch) { 4 } else { 2 };
     let mut durable = false;
     let mut last_reason = String::new();
     for round in 1..=max_rounds {
@@ -352,13 +385,14 @@ pub fn check(tier: &str, budget_s: f64, report: &mut Report) {
                 if workers == 1 && nb == Neighbours::Busy {
                     continue;
                 }
-                for kind in [Kind::Insert, Kind::Overwrite, Kind::Delete, Kind::Sweep, Kind::InsertAfterFailedBatch, Kind::Trickle] {
+                for kind in [Kind::Insert, Kind::Overwrite, Kind::Delete, Kind::Sweep, Kind::InsertAfterFailedBatch, Kind::Trickle, Kind::OverwriteAfterIdle] {
                     cases.push((workers, shard, kind, nb));
                 }
             }
             if thorough || shard == 0 || shard + 1 == workers {
                 cases.push((workers, shard, Kind::Burst, Neighbours::Idle));
                 cases.push((workers, shard, Kind::TickOnFullChannel, Neighbours::Idle));
+                cases.push((workers, shard, Kind::BacklogAfterFailedBatch, Neighbours::Idle));
             }
         }
     }
@@ -414,6 +448,8 @@ pub fn debug_case(workers: usize, shard: usize, kind: &str) -> i32 {
         "burst" => Kind::Burst,
         "fullchannel" => Kind::TickOnFullChannel,
         "trickle" => Kind::Trickle,
+        "idle" => Kind::OverwriteAfterIdle,
+        "backlog" => Kind::BacklogAfterFailedBatch,
         k if k.starts_with("batch") => Kind::BatchOf(k[5..].parse().unwrap_or(509)),
         "insert" => Kind::Insert,
         "overwrite" => Kind::Overwrite,
@@ -426,4 +462,23 @@ pub fn debug_case(workers: usize, shard: usize, kind: &str) -> i32 {
         println!("{workers} workers shard {shard} {kind:?} {nb:?}: rounds {} problems {:?} machinery {:?}", r.rounds, r.problems, r.machinery);
     }
     0
+}
+
+/// The failed-backlog case seen through C09: accepted writes behind a failed batch must
+/// not vanish; once the device works again everything accepted is durable.
+pub fn failed_backlog_for_c09(report: &mut Report) {
+    let mut cases = 0u64;
+    for (workers, shard) in [(1usize, 0usize), (2, 1)] {
+        let r = run_case(workers, shard, Kind::BacklogAfterFailedBatch, Neighbours::Idle);
+        cases += 1;
+        if let Some(m) = r.machinery {
+            report.machinery(format!("[failed backlog, {workers} workers] {m}"));
+        }
+        for p in r.problems.into_iter().take(2) {
+            let msg = p.replacen("C19:", "C09: after a record batch failed three times and the device recovered,", 1);
+            report.violation(format!("fault|failed-backlog|{workers} workers|{}", msg.chars().take(120).collect::<String>()), msg, json!({"engine":"c19-case","workers":workers,"shard":shard,"kind":"backlog"}));
+        }
+    }
+    report.add("evaluations", cases);
+    report.set("failed_backlog_cases", cases);
 }
